@@ -127,6 +127,13 @@ func (g *Gen) isBackEdge(from, to *ssa.BasicBlock) bool {
 	return to.Dominates(from)
 }
 
+func (g *Gen) findLoopsNoSpec() {
+	con := g.con
+	g.con = nil
+	defer func() { g.con = con }()
+	g.findLoops()
+}
+
 func (g *Gen) findLoops() {
 	fn := g.fn
 	g.loops = map[*ssa.BasicBlock]*loopInfo{}
@@ -645,6 +652,17 @@ func (g *Gen) instr(ins ssa.Instruction, b *ssa.BasicBlock, in map[*ssa.BasicBlo
 		st.cells[x] = g.zeroVal(t).C
 		g.env[x] = &SV{A: &Addr{K: aLocal, Al: x, T: t}}
 	case *ssa.Store:
+		// a local pointer variable that holds an interior address (&x.f spilled from a parameter): remember the
+		// address itself (such locals are assigned once)
+		if al, ok := x.Addr.(*ssa.Alloc); ok && !al.Heap {
+			if sv, ok := g.env[x.Val]; ok && sv.A != nil && !(sv.A.K == aHeap && sv.A.Path == "" && len(sv.A.AIdx) == 0) {
+				if prev, dup := g.cellAddr[al]; dup && prev != sv.A {
+					oos("local pointer %s holds different interior addresses", al.Comment)
+				}
+				g.cellAddr[al] = sv.A
+				return
+			}
+		}
 		a := g.addrOf(x.Addr)
 		if a.K == aElem && a.Idx.Sort == "ARRAY" {
 			// whole-array store into an array alloc
@@ -793,6 +811,12 @@ func (g *Gen) phi(x *ssa.Phi, b *ssa.BasicBlock, in map[*ssa.BasicBlock][]edge) 
 func (g *Gen) unop(x *ssa.UnOp) {
 	switch x.Op {
 	case token.MUL: // load
+		if al, ok := x.X.(*ssa.Alloc); ok {
+			if ad, ok := g.cellAddr[al]; ok {
+				g.env[x] = &SV{A: ad}
+				return
+			}
+		}
 		a := g.addrOf(x.X)
 		if a.K == aElem && a.Idx.Sort == "ARRAY" {
 			g.env[x] = &SV{V: g.loadArrayAlloc(a)}
@@ -1197,6 +1221,10 @@ func (g *Gen) ret(x *ssa.Return) {
 	var res []Val
 	for _, r := range x.Results {
 		res = append(res, g.val(r))
+	}
+	if len(g.inlineStack) > 0 {
+		g.inlineRets = append(g.inlineRets, inlineRet{cond: g.reach, st: g.st.clone(), vals: res})
+		return
 	}
 	g.cover("cover.return", "return reachable")
 	if g.con == nil {
